@@ -41,7 +41,7 @@ RULE = ("history = terminal identity + screen size <= 60x30 + pool of <= 6 widge
         "between two redraws; distinct = hash of the operation list")
 PROBES = ["image_moved_between_redraws", "image_disappeared", "bare_non_composite_canvas",
           "overlay_covers_image", "list_scrolled", "widget_collected_z_index_reused",
-          "stop_start_cycle", "konsole_iterm2_image", "resize",
+          "stop_start_cycle", "clear_images_now", "konsole_iterm2_image", "resize",
           "ghost_free_redraws"]
 COMPONENTS = {
     "real": ["UrwidImageScreen (draw_screen, clear, clear_images, _start, _stop, "
@@ -91,6 +91,9 @@ def run(ch, ctx, fault=None):
             styles += ["kitty", "kitty", "kitty"]
         if name.lower() == "konsole":
             styles += ["iterm2"]
+        class SubImage(UrwidImage):
+            """an application-defined image widget"""
+
         pool = []     # dicts: w (widget), kind, desc
         size = [cols, rows]
         serial = [0]
@@ -108,7 +111,9 @@ def run(ch, ctx, fault=None):
                 spec = ch.pick("spec", ("", "<", ">", ".^", "._", "<.^"))
                 if style == "iterm2":
                     ctx.probe("konsole_iterm2_image")
-                wd = UrwidImage(im, spec, upscale=ch.bool("upscale", 0.5))
+                # applications subclass the widget; the z-index allocator is shared by all
+                wcls = SubImage if ch.bool("subclass", 0.35) else UrwidImage
+                wd = wcls(im, spec, upscale=ch.bool("upscale", 0.5))
                 return {"w": wd, "kind": "image", "style": style,
                         "desc": "%sImage#%d(%dx%d,%r)" % (style, serial[0], pw, ph, spec)}
             if kind == "text":
@@ -292,23 +297,23 @@ def run(ch, ctx, fault=None):
         do_start()
         n_ops = ch.int("n_ops", 3, ctx.cfg["max_ops"])
         for i in range(n_ops):
-            # explicit clear_images() calls are not generated (weight 0): they are outside the
-            # property's quantifier and, combined with one widget shown at two places, wrap
-            # the modulo-3 disguise state (see DESIGN.md, C18 observations)
+            # explicit clear_images() is generated at most once between two redraws (the
+            # disguise state is modulo 3: three calls without a redraw wrap it, as the
+            # library's own comments note)
             op = ch.weighted("op", [
                 (10, "draw"), (3, "create"), (2, "drop"), (5, "layout"), (3, "scroll"),
-                (3, "move_overlay"), (2, "resize"), (1, "clear"),
+                (3, "move_overlay"), (2, "resize"), (1, "clear"), (2, "clear_images"),
                 (1, "stop_start"),
             ])
             desc = op
             if op == "draw":
-                if force_new[0]:
-                    # an application that cleared images redraws with fresh canvases; the
-                    # rows are byte-identical apart from the disguise, which is what must
-                    # make urwid repaint them
-                    urwid.CanvasCache.clear()
-                    force_new[0] = False
                 top = build(layout)
+                if force_new[0]:
+                    # an application that cleared images redraws something: the top canvas is
+                    # a new object but the image widgets keep their cached canvases at their
+                    # old places - only the disguise can make urwid repaint those lines
+                    top._invalidate()
+                    force_new[0] = False
                 try:
                     canvas = top.render((size[0], size[1]), focus=True)
                 except Exception as e:
@@ -416,7 +421,7 @@ def run(ch, ctx, fault=None):
                     continue
                 imgs = [d["w"] for d in pool if d["kind"] == "image"]
                 now = ch.bool("now", 0.5)
-                some = [x for x in imgs if ch.bool("sel", 0.5)]
+                some = [] if ch.bool("all", 0.5) else [x for x in imgs if ch.bool("sel", 0.5)]
                 screen.clear_images(*some, now=now)
                 force_new[0] = True
                 desc = "clear_images(%d widgets, now=%s)" % (len(some), now)
